@@ -82,7 +82,8 @@ def hexNatB? (s : BStr) : Option Nat := hexLoop s s.len 0 0
 CRC-32 of the canonical line; every literal is well-formed -/
 def defOk (d : Def) : Bool :=
   d.raw.wf && d.name.wf && d.result.wf && d.idText.wf &&
-  render d == d.raw && hexNatB? d.idText == some d.id && crc32B (canon d) == d.id
+  render d == d.raw && renderTy d.resultTy == d.result &&
+  hexNatB? d.idText == some d.id && crc32B (canon d) == d.id
 
 -- "123456789"
 example : crc32B ⟨9, 0x313233343536373839⟩ = 0xCBF43926 := by decide +kernel
